@@ -295,8 +295,8 @@ func TestModelSelfCheck(t *testing.T) {
 		}, true},
 	}
 	for _, c := range cases {
-		if got := linearizable(c.st, c.h); got != c.want {
-			t.Fatalf("C14 harness self-check failed (model or checker wiring is wrong, not dapr/kit): %s: linearizable=%v want %v", c.name, got, c.want)
+		if got, viaP := linearizable(c.st, c.h), porcupineSays(c.st, c.h); got != c.want || viaP != c.want {
+			t.Fatalf("C14 harness self-check failed (model or checker wiring is wrong, not dapr/kit): %s: linearizable=%v porcupine=%v want %v", c.name, got, viaP, c.want)
 		}
 	}
 }
